@@ -61,7 +61,8 @@ GridBad(ln) ==
                 inside == InsidePts(c.samples, c.cut)
                 ref == Ref(c.samples, c.dflt, c.cut)
             IN Topology("C09", T)
-               \cup (IF ~GeoInBudget(G) THEN {"Harness.Budget"}
+               \* a vertex outside the int32 budget is far outside every generated scene
+               \cup (IF ~GeoInBudget(G) THEN {"C09.WithinCell"}
                      ELSE (IF T = <<>> \/ VolPositive(G) THEN {} ELSE {"C09.Outward"})
                           \cup (IF \A v \in UsedVerts(T) : OnCrossingEdge(inside, ln.pos[v + 1])
                                 THEN {} ELSE {"C09.WithinCell"})
@@ -82,7 +83,9 @@ ShapeBad(ln) ==
        ELSE IF ~IndexOK(ln) \/ Len(ln.fd) # Len(ln.pos) THEN {"C09.WellFormed"}
        ELSE LET G == Geo(T, ln.pos)
             IN Topology("C09", T)
-               \cup (IF ~GeoInBudget(G) THEN {"Harness.Budget"}
+               \* the case's scale maps twice the shapes' bounding box into the budget:
+               \* a vertex outside it is farther from the isosurface than the shapes are wide
+               \cup (IF ~GeoInBudget(G) THEN {"C09.WithinCell"}
                      ELSE IF T = <<>> \/ VolPositive(G) THEN {} ELSE {"C09.Outward"})
                \cup (IF \A v \in UsedVerts(T) : WithinCell(c, ln.fd[v + 1]) THEN {} ELSE {"C09.WithinCell"})
 
@@ -120,9 +123,11 @@ PrimJudge(ln, pv) ==
                   linked == chained /\ pv.on /\ IsDoubling(pv.case, c)
               IN [bad |->
                     Topology("C18", TC)
-                    \cup (IF budget THEN {} ELSE {"Harness.Budget"})
                     \cup (IF outward \/ ~budget THEN {} ELSE {"C18.Outward"})
-                    \cup (IF (c.prim \in Cubes => ln.exact) /\ \A k \in UsedVerts(TC) : OnSurface(c, cpos[k + 1])
+                    \* the scale maps the primitive's own extent to at most CoordMax: a position
+                    \* outside the budget is off the surface (and must not reach the arithmetic)
+                    \cup (IF budget /\ (c.prim \in Cubes => ln.exact)
+                             /\ \A k \in UsedVerts(TC) : OnSurface(c, cpos[k + 1])
                           THEN {} ELSE {"C18.OnSurface"})
                     \cup (IF ~outward \/ VolumeMatches(c, v6) THEN {} ELSE {"C18.Volume"})
                     \cup (IF ~withN \/ ~budget
